@@ -22,6 +22,10 @@ pub fn install_hook() {
             } else {
                 "?".into()
             };
+            // a panic inside the harness itself is a machinery fault: never swallowed
+            if loc.starts_with("src/") || loc.contains("/harness/src/") {
+                eprintln!("MACHINERY harness panic at {loc}: {msg}");
+            }
             LAST.with(|l| *l.borrow_mut() = Some((loc, msg)));
         }));
     });
